@@ -1712,14 +1712,15 @@ func main() {
 	defer os.RemoveAll(tmp)
 
 	type job struct {
-		kind string
-		sc   *script
-		resp map[string]eid
-		ord  []string
-		cut  uint64
-		full bool
-		t0   int64
-		sf   sfJob
+		kind  string
+		sc    *script
+		resp  map[string]eid
+		ord   []string
+		cut   uint64
+		full  bool
+		t0    int64
+		sf    sfJob
+		kind2 string // swapf: which RPC fails
 	}
 	var jobs []job
 	addLine := func(line string) {
@@ -1738,6 +1739,11 @@ func main() {
 		case "fstore":
 			c, _ := strconv.ParseUint(t[2], 10, 64)
 			jobs = append(jobs, job{kind: "fstore", cut: c})
+		case "swapf":
+			if len(t) >= 4 {
+				t0, _ := strconv.ParseInt(t[2], 10, 64)
+				jobs = append(jobs, job{kind: "swapf", t0: t0, kind2: t[3]})
+			}
 		case "sfault":
 			if len(t) >= 8 {
 				j := sfJob{mode: t[2], exitAt: t[7]}
@@ -1786,6 +1792,9 @@ func main() {
 		for i := 0; i < 6+f.N/40; i++ {
 			jobs = append(jobs, job{kind: "sfault", sf: genSfJob(r)})
 		}
+		for _, k := range swfKinds {
+			jobs = append(jobs, job{kind: "swapf", t0: int64(r.Intn(7)), kind2: k})
+		}
 	}
 
 	// election cases run concurrently (each is dominated by the 100 ms grace timer); results are recorded in job order
@@ -1827,8 +1836,25 @@ func main() {
 		}
 		swg.Wait()
 	}
+	swfResults := make([]*swfResult, len(jobs))
 	for i, j := range jobs {
 		if j.kind == "sfault" {
+			continue
+		}
+		if j.kind == "swapf" {
+			wg.Add(1)
+			sem <- struct{}{}
+			go func(i int, j job) {
+				defer wg.Done()
+				defer func() { <-sem }()
+				defer func() {
+					if rec := recover(); rec != nil {
+						swfResults[i] = &swfResult{summary: fmt.Sprintf("harness-panic:%v", rec)}
+					}
+				}()
+				r := runSwapFail(int64(7000000+i), j.t0, j.kind2)
+				swfResults[i] = &r
+			}(i, j)
 			continue
 		}
 		if j.kind == "cfgrace" {
@@ -1891,6 +1917,14 @@ func main() {
 			runSel(o, j.resp, j.ord)
 		case "fstore":
 			runFstore(o, tmp, i, j.cut)
+		case "swapf":
+			res := swfResults[i]
+			in := fmt.Sprintf("%d %s", j.t0, j.kind2)
+			o.Case("swapf", in, res.summary, in)
+			for _, v := range res.viols {
+				o.Violation(v[0], v[1])
+			}
+			o.Count("swapf:fail=" + j.kind2)
 		case "sfault":
 			res := sfResults[i]
 			in := j.sf.String()
